@@ -3,6 +3,7 @@ import Swat4.Lemmas.Prog
 import Swat4.Lemmas.Backed
 import Swat4.Lemmas.BackedSys
 import Swat4.Lemmas.BackedStrict
+import Swat4.Lemmas.MarkKept
 /-!
 # C16 — No crash leaves a server waiting forever for a probe that does not exist
 
@@ -454,6 +455,79 @@ example : Strict.BackedStrict ((UC.report [] 2 ⟨W.A, 10481, 7, some []⟩).run
   rw [← Strict.backedStrictB_iff]; decide
 /-- the two-step cleaner as the system model runs it is a `Client` -/
 example (r : Int) : Client ((UC.cleanServers2 r).bind fun _ => pure "ok") := Client.map _ _ (Client.cleanServers2 r)
+
+
+/-! ## a retry mark is cleared only by a probe outcome
+
+`Marks.MarksKept rm s s'`: every row of `s'` carries every retry mark that the row of `s` under the same key carried,
+and (`rm = false`) every key that had a row still has one.  One theorem per use case, at every crash point and under
+every fault placement (`Prog.runChoices`).  What is left are the prober's `HandleSuccess` / `HandleFailure`
+(`outcomes_clear_mark`): the only writes that clear a retry bit of a row that stays. -/
+
+open Marks in
+/-- **heartbeat** (`reportserver.Execute`, including its port discovery): never clears a retry mark, never removes a row -/
+theorem mark_preserved_report (cs : List Choice) (zeroInfo : Fields) (maxRetries : Int) (req : ReportReq) (now : Int) (s : AbsState)
+    (hk : Keyed s) : MarksKept false s (Prog.runChoices cs (UC.report zeroInfo maxRetries req) s now) :=
+  (report_pres zeroInfo maxRetries req).marksKept hk cs now
+
+open Marks in
+/-- **keepalive** (`renewserver.Execute`) -/
+theorem mark_preserved_renew (cs : List Choice) (instanceId srcIp : Nat) (now : Int) (s : AbsState) (hk : Keyed s) :
+    MarksKept false s (Prog.runChoices cs (UC.renew instanceId srcIp) s now) :=
+  (renew_pres instanceId srcIp).marksKept hk cs now
+
+open Marks in
+/-- **removal** (`removeserver.Execute`): the row is removed whole or left as it is — no row that stays loses a mark -/
+theorem mark_preserved_remove (cs : List Choice) (instanceId : Nat) (a : Addr) (now : Int) (s : AbsState) (hk : Keyed s) :
+    MarksKept true s (Prog.runChoices cs (UC.remove instanceId a) s now) :=
+  (remove_pres instanceId a).marksKept hk cs now
+
+open Marks in
+/-- **REST submission / discovery** (`addserver.Execute`): sets `port_retry` or nothing -/
+theorem mark_preserved_discover (cs : List Choice) (zeroInfo : Fields) (maxRetries : Int) (a : Addr) (now : Int) (s : AbsState)
+    (hk : Keyed s) : MarksKept false s (Prog.runChoices cs (UC.addServer zeroInfo maxRetries a) s now) :=
+  (addServer_pres zeroInfo maxRetries a).marksKept hk cs now
+
+open Marks in
+/-- **refresh** (`refreshservers.Execute`): writes no row -/
+theorem mark_preserved_refresh (cs : List Choice) (maxRetries deadline : Int) (now : Int) (s : AbsState) (hk : Keyed s) :
+    MarksKept false s (Prog.runChoices cs (UC.refresh maxRetries deadline) s now) :=
+  (refresh_pres maxRetries deadline).marksKept hk cs now
+
+open Marks in
+/-- **revival** (`reviveservers.Execute`): writes no row -/
+theorem mark_preserved_revive (cs : List Choice) (maxRetries minScope maxScope minCountdown maxCountdown deadline : Int)
+    (draws : Nat → Int) (now : Int) (s : AbsState) (hk : Keyed s) :
+    MarksKept false s (Prog.runChoices cs (UC.revive maxRetries minScope maxScope minCountdown maxCountdown deadline draws) s now) :=
+  (revive_pres maxRetries minScope maxScope minCountdown maxCountdown deadline draws).marksKept hk cs now
+
+open Marks in
+/-- **cleaner** (`ServerCleaner.Clean`, atomic and two-step): removes rows whole; no row that stays loses a mark -/
+theorem mark_preserved_clean (cs : List Choice) (retention : Int) (now : Int) (s : AbsState) (hk : Keyed s) :
+    MarksKept true s (Prog.runChoices cs (UC.cleanServers retention) s now) ∧
+    MarksKept true s (Prog.runChoices cs (UC.cleanServers2 retention) s now) :=
+  ⟨(cleanServers_pres retention).marksKept hk cs now, (cleanServers2_pres retention).marksKept hk cs now⟩
+
+open Marks in
+/-- **the prober's retry with budget left** (`probeserver.retry`, entered with the stored record) keeps every mark too:
+only a success or the final failure clears one -/
+theorem mark_preserved_probeRetry (cs : List Choice) (prb : Probe) (svr : Server) (t : Int) (now : Int) (s : AbsState)
+    (hk : Keyed s) (hrow : s.servers[svr.addr.key]? = some ⟨svr, t⟩) (hb : prb.retries < prb.maxRetries) :
+    MarksKept false s (Prog.runChoices cs (UC.probeRetry prb svr) s now) :=
+  (probeRetry_budget_pres prb svr (fun row0 h0 g hm => by rw [hrow] at h0; cases h0; exact hm) hb).marksKept hk cs now
+
+/-- non-vacuity: `W.staleState` (A marked `port_retry`, keyed) — a heartbeat of A run to completion keeps the mark, and
+the prober's success clears it -/
+example : Marks.MarksKept false W.staleState ((UC.report [] 2 ⟨W.A, 10481, 7, some []⟩).run W.staleState 5).1 ∧
+    ((((UC.report [] 2 ⟨W.A, 10481, 7, some []⟩).run W.staleState 5).1.servers.toList.map
+      fun kv => Status.has kv.2.svr.status Status.portRetry) = [true]) ∧
+    ((((UC.probe W.probe (some ⟨⟨[], [], []⟩, 10481⟩)).run W.staleState 5).1.servers.toList.map
+      fun kv => Status.has kv.2.svr.status Status.portRetry) = [false]) := by
+  refine ⟨?_, by decide, by decide⟩
+  have hk : Keyed W.staleState := W.state_keyed
+  have := mark_preserved_report (List.replicate ((UC.report [] 2 ⟨W.A, 10481, 7, some []⟩).runSteps W.staleState 5) .ok)
+    [] 2 ⟨W.A, 10481, 7, some []⟩ 5 W.staleState hk
+  rwa [runChoices_all_ok _ _ _ _ (Nat.le_refl _)] at this
 
 
 /-! ## the hypotheses are needed; a third way to lose the backing -/
